@@ -4,7 +4,16 @@ driver model is compared with the implementation on histories of resolve / resol
 calls (which fragment dictionary and which all-atom flag every resolve() used, IndexError past the end).
 Search (never a proof): hierarchical groupings of a fragmented molecule into 1..3 intermediate levels,
 coarse or atomistic last level; the layered string must resolve to the flattened two-level molecule by
-all three ways of driving, and each step's coarse graph must be the previous step's fine graph."""
+all three ways of driving, and each step's coarse graph must be the previous step's fine graph.
+Graph level (theories/Compose): for every generated hierarchy without shared nodes / reused names / |n the chain of cut
+records (top cut U, the cuts below it, the all-atom bottom cut), the fragment dictionaries exactly as read_fragments
+returned them, the base graph exactly as read_cgsmiles returned it, the fine graph every coarse resolve() returned and
+the all-atom fine graph right after edges_from_bonding_descrpt are evaluated in Coq (Compose/LevelsRunCheck.v): the
+hypotheses of `compose_levels` / `compose_levels_all_atom` hold of the implementation's own dictionaries and base graph
+(131, 132), their conclusions hold of the implementation's own returned graphs (133, 134), and the driver machine on the
+end-to-end step over those dictionaries returns exactly those graphs at every coarse level (correspondence).
+Compose/LevelsRunSound.v proves what verdict 0 means."""
+import copy
 import json
 
 import networkx as nx
@@ -12,6 +21,7 @@ import networkx as nx
 import common
 import lit
 import molgen
+from props.c01 import _ABBR_DEFS, _compress
 
 
 def dump(g, keys=('element', 'atomname', 'fragname', 'fragid', 'charge', 'weight', 'hcount')):
@@ -74,13 +84,15 @@ class C06(common.Prop):
     technique = ('Coq proof of the driver state machine for every resolution step (manual/iter/all agree, chaining, '
                  'dictionary and all-atom flag per level) + per-run correspondence of the driver model on call '
                  'histories + generated search for the composition clause (layered vs flattened string)')
-    vo_deps = ['theories/Resolve/DriversCheck.vo']
+    vo_deps = ['theories/Resolve/DriversCheck.vo', 'theories/Compose/LevelsRunCheck.vo']
     prop_file = 'theories/Properties/C06.v'
     case_requires = ('From Coq Require Import String.\nFrom Coq Require Import List Ascii ZArith Bool.\n'
-                     'From CGV Require Import Base.PyBase Resolve.Drivers Resolve.DriversCheck.')
-    case_type = 'c06case'
-    corr_fn = 'c06_corr'
-    fail_fn = 'c06_fail'
+                     'From CGV Require Import Base.PyBase Base.PyVal Base.NxGraph Resolve.Drivers Resolve.DriversCheck '
+                     'Compose.CutModel Compose.LevelsRunCheck.\nOpen Scope Z_scope.\n' + _ABBR_DEFS)
+    shard = 40
+    case_type = 'c06x_case'
+    corr_fn = 'c06x_corr'
+    fail_fn = 'c06x_fail'
     quick_cases = 250
     thorough_cases = 4000
     extended_cases = 1500
@@ -92,6 +104,14 @@ class C06(common.Prop):
                  103: "a step's coarse graph is not the previous step's fine graph",
                  104: 'flattened two-level string does not resolve to the original molecule',
                  105: 'resolver raised an exception on a valid layered string',
+                 131: 'graph level: a fragment dictionary the implementation read does not hold the templates of that level\'s '
+                      'cut (node numbering, names / element, charge, aromatic, hcount, descriptors, inner bonds with orders)',
+                 132: 'graph level: the base graph the implementation read is not a base graph of the top cut',
+                 133: 'graph level: the fine graph a coarse resolve() returned is not the skeleton of that level\'s cut in the '
+                      'numbering the levels above induce (keys offset+index, fragid, names, exactly the bonds with their '
+                      'orders and descriptor marks), or lists a neighbour twice',
+                 134: 'graph level: the all-atom fine graph right after the bonding step is not the skeleton of the bottom cut '
+                      'in the numbering the levels above induce',
                  106: 'the mapping or bonding guarantee fails at a step (fragment graph of a coarse node vs the fine nodes '
                       'recording it, fragment name, bonds only across base edges)'}
 
@@ -226,7 +246,65 @@ class C06(common.Prop):
             res['hist'] = hist
         except Exception as exc:
             res['exc'] = '%s: %s' % (type(exc).__name__, str(exc)[:100])
+        if case.get('hier') and 'exc' not in res:
+            res['gl'] = self._hier_level(case, laa)
         return res
+
+    def _hier_level(self, case, laa):
+        """Gallina literals of what the implementation read and returned: fragment dictionaries, base graph, the fine graph
+        of every coarse resolve(), the all-atom fine graph right after the bonding step; hcount per atom of the bottom cut"""
+        from cgsmiles.resolve import MoleculeResolver
+        cuts = case['hier']['cuts']
+        try:
+            r = MoleculeResolver.from_string(case['layered'], last_all_atom=laa)
+        except Exception:
+            return None
+        out = {'base': lit.nxgraph(copy.deepcopy(r.molecule)),
+               'fds': [lit.lst([lit.pair(lit.s(nm), lit.nxgraph(g)) for nm, g in fd.items()]) for fd in r.fragment_dicts]}
+        hc = {}
+        if laa and r.fragment_dicts:
+            fd = r.fragment_dicts[-1]
+            for name, ids in cuts[-1]['parts']:
+                g = fd.get(name)
+                for i, a in enumerate(ids):
+                    h = g.nodes[i].get('hcount') if (g is not None and i in g.nodes) else None
+                    hc[a] = h if (isinstance(h, int) and not isinstance(h, bool)) else (None if h is None else float(h))
+        out['hcount'] = hc
+        rec = {}
+        orig = r.edges_from_bonding_descrpt
+
+        def wrapped(all_atom=True):
+            orig(all_atom=all_atom)
+            if all_atom:
+                rec['m2'] = lit.nxgraph(copy.deepcopy(r.molecule))
+        r.edges_from_bonding_descrpt = wrapped
+        ncoarse = len(cuts) - (1 if laa else 0)
+        outs = []
+        try:
+            for k in range(len(cuts)):
+                _, mol = r.resolve()
+                if k < ncoarse:
+                    outs.append(lit.nxgraph(copy.deepcopy(mol)))
+        except Exception:
+            pass
+        out['outs'] = outs
+        out['m2'] = rec.get('m2')
+        return out
+
+    @staticmethod
+    def _cut_literal(c, hcount=None):
+        atoms = []
+        for a, d in c['atoms']:
+            d = dict(d)
+            if hcount and hcount.get(a) is not None:
+                d['hcount'] = hcount[a]
+            atoms.append(lit.pair(lit.z(a), lit.attrs(d)))
+        bonds = ['{| cb_u := %s; cb_v := %s; cb_ord := %s; cb_lab := %s; cb_dollar := %s |}'
+                 % (lit.z(u), lit.z(v), lit.pyval(o), lit.s(lab), lit.b(dl)) for u, v, o, lab, dl in c['bonds']]
+        parts = [lit.pair(lit.s(nm), lit.lst([lit.z(a) for a in ids])) for nm, ids in c['parts']]
+        dord = [lit.pair(lit.z(a), lit.lst([lit.s(t) for t in ts])) for a, ts in c['dord']]
+        return '{| c_atoms := %s; c_bonds := %s; c_parts := %s; c_dord := %s |}' % (
+            lit.lst(atoms), lit.lst(bonds), lit.lst(parts), lit.lst(dord))
 
     def extra_fail(self, case, impl):
         if 'exc' in impl:
@@ -245,7 +323,8 @@ class C06(common.Prop):
 
     def case_class(self, case, impl):
         return 'levels=%s %s%s' % (case.get('levels'), 'coarse-last' if case['coarse_last'] else 'atomistic-last',
-                                   (' shared-node' if case.get('squash') else '') + (' reused-names' if case.get('reuse_names') else '') + (' block|n' if case.get('block') else ''))
+                                   (' shared-node' if case.get('squash') else '') + (' reused-names' if case.get('reuse_names') else '')
+                                   + (' block|n' if case.get('block') else '') + (' graph-level' if impl.get('gl') else ''))
 
     def nontrivial(self, case, impl):
         return case.get('nparts', 2) >= 2
@@ -257,14 +336,25 @@ class C06(common.Prop):
         def ous(l):
             return lit.lst([ou(x) for x in l])
         if 'exc' in impl:
-            return ('{| k_hist := {| c_len := 0%nat; c_laa := false; c_calls := []; c_obs := [] |}; '
-                    'k_fresh := {| f_len := 0%nat; f_laa := false; f_manual := []; f_iter := []; f_all := [] |} |}')
+            return ('({| k_hist := {| c_len := 0%nat; c_laa := false; c_calls := []; c_obs := [] |}; '
+                    'k_fresh := {| f_len := 0%nat; f_laa := false; f_manual := []; f_iter := []; f_all := [] |} |}, None)')
         n, laa = impl['n'], impl['laa']
         hist = ('{| c_len := %s; c_laa := %s; c_calls := %s; c_obs := %s |}'
                 % (lit.nat(n), lit.b(laa), lit.lst(case.get('calls', [])), lit.lst([ous(h) for h in impl['hist']])))
         fresh = ('{| f_len := %s; f_laa := %s; f_manual := %s; f_iter := %s; f_all := %s |}'
                  % (lit.nat(n), lit.b(laa), lit.lst([ous(m) for m in impl['manual']]), ous(impl['iter']), ous(impl['all'])))
-        return '{| k_hist := %s; k_fresh := %s |}' % (hist, fresh)
+        gl = impl.get('gl')
+        if not gl:
+            run = 'None'
+        else:
+            cuts = case['hier']['cuts']
+            ncoarse = len(cuts) - (1 if laa else 0)
+            lits = [self._cut_literal(c) for c in cuts[:ncoarse]]
+            c0 = '(Some %s)' % self._cut_literal(cuts[-1], gl['hcount']) if laa else 'None'
+            run = _compress('(Some {| lr_U := %s; lr_Cs := %s; lr_C0 := %s; lr_fds := %s; lr_base := %s; lr_outs := %s; lr_m2 := %s |})'
+                            % (lits[0], lit.lst(lits[1:]), c0, lit.lst(gl['fds']), gl['base'], lit.lst(gl['outs']),
+                               'None' if gl['m2'] is None else '(Some %s)' % gl['m2']))
+        return '({| k_hist := %s; k_fresh := %s |}, %s)' % (hist, fresh, run)
 
 
 PROP = C06()
